@@ -72,9 +72,13 @@ where
       let s_complete = s.clone();
       *sbsc.write().unwrap() = Some(subject.observable().subscribe(
         move |x| s_next.next(x),
-        move |e| s_error.error(e),
+        move |e| {
+          s_error.error(e);
+          s_error.unsubscribe();
+        },
         move || {
           s_complete.complete();
+          s_complete.unsubscribe();
         },
       ));
     })
